@@ -33,7 +33,9 @@ Proof.
   exists s. split; [eapply brun_reach; [apply breach_init|exact H]|]. auto.
 Qed.
 
-(* ---- clauses stated but NOT proved (see notes/C09.md) ------------------------------------------ *)
+(* ---- clauses stated here; PROVED later in new files (C09_Release.v: chan_timeout_reason_buffered_proved,
+   chan_release_unbuffered_proved; see notes/C09.md "Continuation").  The comments below describe the state at the
+   time this file was written. ------------------------------------------------------------------------------ *)
 (* false only because of an expired timeout: every RTimeout result was produced at a moment when the
    call's Timeout had expired.  (The RClosed half is proved: buf_closed_reason, unbuf_closed_reason.)
    Missing: the invariant "a thread woken by the timer has deadline <= now, and the deadline of a
